@@ -21,7 +21,7 @@
 //   --programs FILE   one program per line:  <kind> <ops separated by ','>      kind = node | biprop
 //   --randprog N      N seeded random programs (see genProgram)
 //   --execs 0,1,2     every program is run once per listed executor (eval without digit uses it)
-//   --pool K --runs R --seed S --pct D --mult M --smult M
+//   --pool K --runs R --seed S --pct D --mult M --smult M --partial P --kind node|biprop --varypool --varymult
 // BIG mode (--big N): seeded random DAGs up to --maxnodes nodes on a free-running pool; one line per
 // operation (no projection) and one observation line per evaluation: the run log (begin/end events in
 // their real order, taken inside the functors) and the projection.  TLC judges both.
@@ -120,7 +120,7 @@ struct Rng {
 // higher rank, hence no cycles), whether every live node has been evaluated since it was created /
 // marked (`touched` mirrors "a ForwardPropagator pass is only valid once, and not after
 // setAllNodesIncomplete, between two evaluations").
-static Program genProgram(Rng& r, bool biprop, int maxNodes, int exec, bool mixExec) {
+static Program genProgram(Rng& r, bool biprop, int maxNodes, int exec, bool mixExec, int partialPct) {
   Program p;
   p.biprop = biprop;
   int nsg = 1;
@@ -209,7 +209,7 @@ static Program genProgram(Rng& r, bool biprop, int maxNodes, int exec, bool mixE
   for (int k = 0; k < rounds; ++k) {
     int what = r.below(100);
     auto live = liveIds();
-    if (what < 45 && !live.empty()) {
+    if (what < partialPct && !live.empty()) {
       // partial re-evaluation
       int m = 1 + r.below(std::max(1, std::min(4, (int)live.size() / 3 + 1)));
       for (int j = 0; j < m; ++j)
@@ -221,7 +221,7 @@ static Program genProgram(Rng& r, bool biprop, int maxNodes, int exec, bool mixE
       }
       touched = true;
       evalOp();
-    } else if (what < 85 && !live.empty()) {
+    } else if (what < partialPct + (100 - partialPct) * 3 / 4 && !live.empty()) {
       // clear one subgraph (or everything) and rebuild
       int s = sgOf[(size_t)live[(size_t)r.below((int)live.size())]];
       int removed = 0;
@@ -603,6 +603,7 @@ int main(int argc, char** argv) {
   int nthreads = (int)a.num("pool", 2);
   int mult = (int)a.num("mult", 32);
   int smult = (int)a.num("smult", 4);
+  int partialPct = (int)a.num("partial", 45); // share of rounds that are mark + propagate re-evaluations
 
   if (a.has("big")) {
     long long n = a.num("big", 4);
@@ -611,7 +612,7 @@ int main(int argc, char** argv) {
       Rng r(seed * 7919 + (uint64_t)i);
       bool bp = r.chance(50);
       int sz = i == 0 ? maxNodes : 12 + r.below(std::max(1, maxNodes - 12));
-      Program p = genProgram(r, bp, sz, 0, true);
+      Program p = genProgram(r, bp, sz, 0, true, partialPct);
       int k = 1 + r.below(6);
       std::string tag = "big" + std::to_string(i) + "s" + std::to_string(seed);
       if (bp)
@@ -647,7 +648,7 @@ int main(int argc, char** argv) {
     for (long long i = 0; i < n; ++i) {
       Rng r(seed * 104729 + (uint64_t)i);
       bool bp = a.has("kind") ? a.str("kind") == "biprop" : r.chance(60);
-      progs.push_back(genProgram(r, bp, 3 + r.below(std::max(1, maxNodes - 2)), execs[(size_t)i % execs.size()], mix));
+      progs.push_back(genProgram(r, bp, 3 + r.below(std::max(1, maxNodes - 2)), execs[(size_t)i % execs.size()], mix, partialPct));
     }
   }
   long long runs = a.num("runs", 1);
